@@ -323,6 +323,17 @@ def include_oracle(rng):
             open(mp, "w").write(text)
             stats["wrapped"] = 1
 
+        if rng.random() < 0.35 and len(files) > 1:
+            # one of the files is first loaded on its own, as a program of its own: what is "being included" is a matter of
+            # one parse, not of the process (seed C16i: every parser shared one set of visited files)
+            kp = os.path.join(root, rng.choice([k for k in files if k != main]))
+            stats["preloaded"] = 1
+            try:
+                with captured():
+                    rc.with_budget(lambda: parse(open(kp).read(), path=kp, settings=Settings()), 5.0)
+            except BaseException:  # noqa
+                pass
+
         def go():
             with captured():
                 return parse(text, path=mp, settings=Settings())
